@@ -15,7 +15,8 @@ class Check(EngineCheck):
                 H + "C06_handoff_counts", H + "C06_no_deadlock", H + "C06_lost_wakeup_without_recheck",
                 # refinement: every trace of the concrete engine model (all programs, schedules, cancellation points) is accepted
                 "LLBuild.Refine.refinement_final", "LLBuild.Refine.refinement_build", "LLBuild.Refine.opOk_iff_noBad",
-                "LLBuild.Refine.EngineImpl_sound_C01", "LLBuild.Refine.EngineImpl_sound_C02_once"]
+                "LLBuild.Refine.EngineImpl_sound_C01", "LLBuild.Refine.EngineImpl_sound_C02_once",
+                "LLBuild.Refine.EngineImpl_sound_C05_quiescent"]
     mix = [(0.5, {}), (0.5, {"threads": True})]
     budget = (300, 3000)
     cross_schedule = True
